@@ -190,6 +190,16 @@ def step (line : String) : String :=
         | some d => s!"FAIL capability {d}"
         | none => s!"FAIL Can* accessors {impl} do not reflect the detected capabilities {want}"
       s!"{want}\t{impl}\t{v}"
+  | ["api", adv, "newimage", a, _] =>
+      -- which image object NewImage hands out: a kitty / sixel image only if the terminal advertised that protocol
+      -- (the block renderers are always allowed; they are also the fallback when the pixel size is unknown)
+      let bit (i : Nat) : Bool := (adv.toList.reverse.getD i '0') == '1'
+      let ty := strOfHex ((a.drop 2).toString)
+      let v := if ty == "KittyImage" && !bit 5 then "FAIL NewImage returned a kitty image although the terminal did not answer the kitty graphics query"
+        else if ty == "Sixel" && !(bit 0 || bit 17) then "FAIL NewImage returned a sixel image although the terminal advertised no sixel support"
+        else if ty == "KittyImage" || ty == "Sixel" || ty == "HalfBlockImage" || ty == "FullBlockImage" || ty == "none" then "ok"
+        else s!"FAIL unknown image type {ty}"
+      s!"img:{ty}\timg:{ty}\t{v}"
   | ["api", adv, name, a, b] =>
       match apiExpected adv name (strOfHex ((a.drop 2).toString)) (strOfHex ((b.drop 2).toString)) with
       | some want =>
